@@ -75,6 +75,12 @@ fn write_body(
         } else {
             source.to_writer(&mut enc)?;
         }
+
+        // Write out the buffered tail of the base64 data and of the last line explicitly:
+        // the `Drop` implementations would do it too, but they have to ignore I/O errors.
+        enc.finish()?;
+        drop(enc);
+        line_wrapper.finish()?;
     }
 
     Ok(())
@@ -123,6 +129,11 @@ impl<W: std::io::Write> Base64Encoder<W> {
             writer,
             &general_purpose::STANDARD,
         ))
+    }
+
+    /// Encode and write all remaining buffered data, including padding, reporting I/O errors.
+    pub(crate) fn finish(&mut self) -> std::io::Result<()> {
+        self.0.finish().map(|_| ())
     }
 }
 impl<W: std::io::Write> std::io::Write for Base64Encoder<W> {
